@@ -124,6 +124,14 @@ static std::string cmdLifecycle(const std::vector<std::string>& a) {
 				InterpreterState st = interp->step(0);
 				rec1("st", istateName(st));
 				if (st != USCXML_INITIALIZED && st != USCXML_INSTANTIATED) recordConfig(w, *interp);
+			} else if (k == "drain") {
+				// step(0) until the interpreter is idle or finished (bounded)
+				for (int i = 0; i < 300; i++) {
+					InterpreterState st = interp->step(0);
+					rec1("st", istateName(st));
+					if (st != USCXML_INITIALIZED && st != USCXML_INSTANTIATED) recordConfig(w, *interp);
+					if (st == USCXML_IDLE || st == USCXML_FINISHED) break;
+				}
 			} else if (k == "stepb") {
 				InterpreterState st = interp->step((size_t)atol(arg.c_str()));
 				rec1("st", istateName(st));
@@ -265,7 +273,9 @@ static std::string cmdProducers(const std::vector<std::string>& a) {
 		cm.n = seen;
 		interp.addMonitor(&cm);
 		long long deadline = nowUs() + 20000000LL;
+		long stepsLeft = total * 300 + 3000;   // a chart that never stabilises must not produce a 20 s trace
 		while (seen->load() < total) {
+			if (--stepsLeft < 0) { timeout = true; break; }
 			InterpreterState st = interp.step(blockMs < 0 ? (size_t)200 : (size_t)blockMs);   // 'forever' is emulated by a long wait so the watchdog can fire
 			if (st == USCXML_FINISHED) break;
 			if (nowUs() > deadline) { timeout = true; break; }
@@ -340,6 +350,7 @@ static std::string cmdTimed(const std::vector<std::string>& a) {
 		while (!finished) {
 			long long el = (nowUs() - t0) / 1000;
 			if (el > untilMs) break;
+			if (opts.count("destroyparked") && ctl.parked.load() > 0) break;
 			for (auto& it : items) {
 				if (!it.done && el >= it.ms) {
 					it.done = true;
@@ -367,10 +378,12 @@ static std::string cmdTimed(const std::vector<std::string>& a) {
 				ctl.release = true;
 			}
 		}
-		ctl.release = true;
+		// destroyparked: tear the interpreter down while a thread still sits at the park point (it leaves after parkms)
+		if (!opts.count("destroyparked")) ctl.release = true;
 		long long td = nowUs();
 		interp->removeMonitor(mon);
 		delete interp;
+		ctl.release = true;
 		installCtl(NULL);
 		{
 			std::lock_guard<std::recursive_mutex> lock(g_recMutex);
